@@ -102,7 +102,7 @@ PROPS = {
         'coq': 'Props/C11.v',
         'families': [
             {'name': 'lex',
-             'args': {'quick': ['--malformed', 4000, '--lexemes', 500, '--exhaustive', 4], 'thorough': ['--malformed', 200000, '--lexemes', 20000, '--exhaustive', 5]},
+             'args': {'quick': ['--malformed', 4000, '--lexemes', 500, '--exhaustive', 4, '--adjacent', 30000], 'thorough': ['--malformed', 200000, '--lexemes', 20000, '--exhaustive', 5, '--adjacent', 30000]},
              'shards': {'quick': 16, 'thorough': 16}, 'driver_args': []},
             {'name': 'tree',
              'args': {'quick': ['--corpus', 1, '--mutants', 1000, '--templates', 1500, '--random', 2500],
@@ -139,8 +139,8 @@ PROPS = {
         'coq': 'Props/C12.v',
         'families': [
             {'name': 'tree',
-             'args': {'quick': ['--corpus', 1, '--mutants', 2500, '--lexemes', 1500, '--templates', 3000, '--random', 3000],
-                      'thorough': ['--corpus', 1, '--mutants', 60000, '--lexemes', 30000, '--templates', 100000, '--random', 80000]},
+             'args': {'quick': ['--corpus', 1, '--mutants', 2500, '--lexemes', 1500, '--templates', 3000, '--random', 3000, '--escapes', 4000],
+                      'thorough': ['--corpus', 1, '--mutants', 60000, '--lexemes', 30000, '--templates', 100000, '--random', 80000, '--escapes', 100000]},
              'shards': {'quick': 16, 'thorough': 16}, 'driver_args': []},
         ],
         'exhaustive': {'quick': False, 'thorough': False},
